@@ -187,8 +187,16 @@ func run(e *hx.Env, m *hx.Model, c qcase) {
 				e.Rep.Count(fmt.Sprintf("%d|%s|%s", pass, strings.Join(c.Setup[2:], ";"), q), true)
 				if d.Err != nil || g.Err != nil {
 					e.Rep.Hit("error:" + fmt.Sprint(d.Err != nil) + "/" + fmt.Sprint(g.Err != nil))
-					if (d.Err != nil) != (g.Err != nil) {
-						e.Rep.Disagree(map[string]any{"setup": c.Setup, "indexes": pass == 1, "query": q}, fmt.Sprint(d.Err), fmt.Sprint(g.Err), "one engine fails")
+					if d.Err != nil && g.Err == nil {
+						// the reference engine answers, dolt does not: the property is violated on this input
+						key := "query/dolt-error"
+						if strings.Contains(d.Err.Error(), "cannot write NULL to non-NULL field") {
+							key = nullKeyPanicKey // confirmed defect (CLI replay in design/C26.md)
+						}
+						e.Rep.Violate(key, fmt.Sprintf("dolt fails on %q (indexes=%v) where the reference engine returns %d rows: %v", q, pass == 1, len(g.Rows), d.Err),
+							qcase{Setup: c.Setup, Indexes: pick(pass == 1, c.Indexes), Queries: []string{q}})
+					} else if d.Err == nil && g.Err != nil {
+						e.Rep.Disagree(map[string]any{"setup": c.Setup, "indexes": pass == 1, "query": q}, "ok", fmt.Sprint(g.Err), "the reference engine fails, dolt answers")
 					}
 					continue
 				}
@@ -268,6 +276,7 @@ func main() {
 		return
 	}
 	leftMergeWitness(e)
+	nullKeyPanicWitness(e)
 	for _, raw := range e.CorpusCases() {
 		var k kcase
 		if json.Unmarshal(raw, &k) == nil && k.Stream == "kernel" {
@@ -309,6 +318,41 @@ func leftMergeWitness(e *hx.Env) {
 		if rd != rg {
 			e.Rep.Violate(leftMergeKey, fmt.Sprintf("left outer merge join loses a match: %q returns %s, reference %s", c.Queries[0],
 				strings.ReplaceAll(rd, "\n", " ; "), strings.ReplaceAll(rg, "\n", " ; ")), c)
+		}
+		return ""
+	})
+	if out != "" {
+		e.Rep.Violate("query/failure", out, c)
+	}
+}
+
+const nullKeyPanicKey = "lookupjoin/null-safe-equal-on-not-null-key-panics"
+
+// nullKeyPanicWitness replays the minimal input of the confirmed lookup-join panic on every run.
+func nullKeyPanicWitness(e *hx.Env) {
+	c := qcase{Setup: []string{"create table t (pk int primary key, b int)", "create table r (id int primary key, a int)",
+		"insert into t values (1,1),(2,NULL),(3,5)", "insert into r values (1,1),(2,2),(3,NULL)"},
+		Queries: []string{"select /*+ LOOKUP_JOIN(t,r) */ t.pk, r.id from t left join r on t.b = r.a and r.id <=> NULL"}}
+	out := hx.Recover(func() string {
+		dir := filepath.Join(e.Scratch, "witness2")
+		defer os.RemoveAll(dir)
+		eng, err := sqleng.New(dir, sqleng.Options{})
+		if err != nil {
+			return "engine: " + err.Error()
+		}
+		defer eng.Close()
+		s, _ := eng.NewSession()
+		mem := qx.NewMem()
+		for _, q := range c.Setup {
+			s.MustExec(q)
+			mem.MustExec(q)
+		}
+		d, g := s.Exec(c.Queries[0]), mem.Exec(c.Queries[0])
+		e.Rep.Hit("witness:null-key-panic:" + fmt.Sprint(d.Err == nil))
+		if d.Err != nil && g.Err == nil {
+			e.Rep.Violate(nullKeyPanicKey, fmt.Sprintf("dolt fails on %q where the reference engine returns %d rows: %v", c.Queries[0], len(g.Rows), d.Err), c)
+		} else if d.Err == nil && g.Err == nil && render(d, false) != render(g, false) {
+			e.Rep.Violate("query/rows", "witness query answers differently: "+render(d, false)+" vs "+render(g, false), c)
 		}
 		return ""
 	})
